@@ -183,7 +183,7 @@ def fp_case_timers(rng, t0):
         if r < 0.97:
             return "W"
         return ""
-    behs = [action() for _ in range(rng.randint(2, 8))]
+    behs = [(action() + " O").strip() for _ in range(rng.randint(2, 8))]
     return "%d %d ; %s ; %s" % (t0, npaths, " ".join(ops), " | ".join(behs))
 
 
@@ -214,10 +214,12 @@ def fp_case(rng):
             while rng.random() < (0.35 if restart_heavy else 0.2):
                 if restart_heavy and rng.random() < 0.5:
                     h = rng.randrange(nh)
-                    ops += ["T%d" % h, "S%d,%d,%d,%d,0" % (h, rng.randint(1, 3), rng.randrange(npaths),
-                                                            rng.choice(INTERVALS))]
+                    ops += ["T%d" % h] + (["O"] if rng.random() < 0.5 else []) + \
+                           ["S%d,%d,%d,%d,0" % (h, rng.randint(1, 3), rng.randrange(npaths), rng.choice(INTERVALS))]
                 else:
                     ops.append(fp_api_op(rng, nh, npaths))
+                if rng.random() < 0.4:
+                    ops.append("O")          # uv_fs_poll_getpath / uv_is_active of every handle, right now
             if phase == 0:
                 while rng.random() < 0.6:
                     ops.append(fp_file_op(rng, npaths))
@@ -240,8 +242,10 @@ def fp_case(rng):
     ops.append("Z")
     behs = []
     for _ in range(rng.randint(0, 12)):
-        behs.append(" ".join(fp_api_op(rng, nh, npaths, allow_fail=False)
-                             for _ in range(rng.choice([0, 0, 1, 1, 2, 3]))))
+        b = [fp_api_op(rng, nh, npaths, allow_fail=False) for _ in range(rng.choice([0, 0, 1, 1, 2, 3]))]
+        if b and rng.random() < 0.6:
+            b.append("O")
+        behs.append(" ".join(b))
     return "%d %d ; %s ; %s" % (t0, npaths, " ".join(ops), " | ".join(behs))
 
 
@@ -441,6 +445,11 @@ def fp_monitor(case, toks, other_live=None):
                     err.append("uv_is_active(h%d) = %d, expected %d" % (j, a, H[j]["active"]))
                 if H[j]["active"] and p != str(H[j]["reg"]["path"]):
                     err.append("uv_fs_poll_getpath(h%d) = path %s, started on path %d" % (j, p, H[j]["reg"]["path"]))
+                if not H[j]["active"] and p != "-":
+                    err.append("uv_fs_poll_getpath(h%d) on a handle that is not active (%s) answers %s instead of "
+                               "UV_EINVAL with *size = 0 (the old path is still handed out)"
+                               % (j, "closing" if H[j]["closing"] else "stopped or never started",
+                                  ("0 and path " + p) if p[0] != "!" else p))
 
     def callbacks():
         """poll and close callbacks (each followed by its scripted behaviour)"""
